@@ -158,7 +158,7 @@ def blocks_op(rng, data, p=0.3):
     """a many-block in-place call: usually `*_blocks`, sometimes a caller-written closure for `*_with_backend` that uses the
     `_inplace` / `par` / `tail` backend entry points directly (variants 0-2; 3 goes buffer-to-buffer into a dirty buffer)"""
     if rng.random() < p:
-        return f"backend {rng.randrange(0, 6)} {hx(data)}"
+        return f"backend {rng.randrange(0, 7)} {hx(data)}"
     return f"blocks {hx(data)}"
 
 
